@@ -366,7 +366,7 @@ pub fn run(report: &mut Report, seed: u64, cases: u64) {
         let m = if k == 0 {
             vs_schema()
         } else {
-            random_schema(&mut rng, &SchemaGenCfg { docs: true, hostile_names: k % 3 == 0, ..Default::default() })
+            random_schema(&mut rng, &SchemaGenCfg { docs: true, hostile_names: k % 3 == 0, propertyless_pct: 12, ..Default::default() })
         };
         check_model(report, &m, &meta, &meta_m, &mut rng);
         if report.samples.len() < 2 {
